@@ -250,6 +250,11 @@ def _enum_chunk(args):
 # ----------------------------------------------------------------------------------------
 # known findings
 # ----------------------------------------------------------------------------------------
+def _kinds(f):
+    k = f.get('failure_kind', '')
+    return tuple(k) if isinstance(k, (list, tuple)) else (k,)
+
+
 def load_findings(pid):
     path = os.path.join(env.VERIF, 'known_findings.json')
     if not os.path.exists(path):
@@ -307,7 +312,7 @@ def run(pid, tier):
             res = evaluate(prop, case)
             if res is None:
                 stale.append(f['key'])
-            elif res[0].startswith(f.get('failure_kind', '')):
+            elif res[0].startswith(_kinds(f)):
                 line = 'KNOWN-FINDING: property=%s %s [%s] input=%s' % (pid, f['what'], f['key'], case['input'])
                 if line not in known_lines:
                     known_lines.append(line)
